@@ -558,8 +558,9 @@ def c09(ctx):
                 if r < 0.5: ops.append(('copy', vg.gen(sh)))
                 elif r < 0.6: ops.append(('clear',))
                 elif r < 0.8: ops.append(('extend', [vg.gen(sh) for _ in range(ctx.rng.randrange(4))]))
-                else: ops.append(('clone',))
-            ops += [('clone',), ('observe',)]
+                elif r < 0.9: ops.append(('clone',))
+                else: ops.append(('clonefrom', [vg.gen(sh) for _ in range(ctx.rng.choice([0, 2, 6]))]))
+            ops += [('clonefrom', [vg.gen(sh) for _ in range(ctx.rng.choice([0, 1, 4, 8]))]), ('observe',)] if ctx.rng.random() < 0.5 else [('clone',), ('observe',)]
             ops += [('copy', vg.gen(sh)) for _ in range(ctx.rng.choice([1, 2, 5]))] + [('observe',)]
             fscases.append((name, ops))
     note_fs(res, fscases)
@@ -1320,7 +1321,7 @@ def fs_op_str(op):
     if k in ('extend', 'fromiter', 'extendlazy'): return k + ' ' + gen.show(list(op[1]))
     if k == 'reserve': return 'reserve %x' % op[1]
     if k in ('withcap', 'mergecap'): return '%s %x' % (k, op[1])
-    if k in ('resregs', 'resitems'): return k + ' ' + gen.show(list(op[1]))
+    if k in ('resregs', 'resitems', 'clonefrom'): return k + ' ' + gen.show(list(op[1]))
     return k
 
 def fs_oracle(e, o, ops, obs, index_free=False, heap=False):
@@ -1417,7 +1418,8 @@ def gen_fs_cases(ctx, names, n, maxops, observe_each=True, p_serde=0.0, p_cap=0.
                 elif r < 0.65: ops.append(('extendlazy', [val() for _ in range(ctx.rng.randrange(4))]))
                 elif r < 0.72: ops.append(('fromiter', [val() for _ in range(ctx.rng.randrange(5))]))
                 elif r < 0.8: ops.append(('clear',))
-                elif r < 0.88: ops.append(('clone',))
+                elif r < 0.84: ops.append(('clone',))
+                elif r < 0.88: ops.append(('clonefrom', [val() for _ in range(ctx.rng.choice([0, 1, 3, 6]))]))   # clone_from into a pre-filled scratch stack
                 else: ops.append(('reserve', ctx.rng.choice([0, 1, 10, 100])))
                 if p_serde and ctx.rng.random() < p_serde: ops.append(('serde',))
                 if p_cap and ctx.rng.random() < p_cap:
